@@ -104,6 +104,8 @@ def run_case(ctx, name, params):
         # an earlier batch on the same algorithm/job object, with its own (non-fatal) failures: nothing counted there may
         # carry over into the batch that is judged
         ws = ["TR"[r.randrange(2)] * r.randint(0, 4) for _ in range(r.randint(1, 3))]
+        if r.random() < 0.5:
+            ws.append("TR"[r.randrange(2)] * r.randint(1, 4) + r.choice("VKZO"))   # ends the warm-up batch with an exception the caller catches
         warm = []
         for w_ in ws:
             wi = Individual([r.uniform(lb, ub) for lb, ub in bxs])
